@@ -11,6 +11,17 @@ fn main() {
     let mut report = Report::default();
     match args.prop.as_str() {
         "C07" => range::run(&args, &mut report),
+        "dbg-parse" => {
+            // developer aid: print the parser's errors for a file (--replay FILE)
+            let text = std::fs::read_to_string(args.replay.as_ref().expect("--replay FILE")).expect("file");
+            let tree = emmylua_parser::LuaParser::parse(&text, emmylua_parser::ParserConfig::with_level(emmylua_parser::LuaLanguageLevel::Lua55));
+            for e in tree.get_errors() {
+                let r = e.range;
+                let (a, b) = (usize::from(r.start()), usize::from(r.end()));
+                println!("{}..{} {:?}: {}", a, b, &text[a.min(text.len())..(b + 10).min(text.len())], e.message);
+            }
+            return;
+        }
         other => {
             eprintln!("vh-fmt: unknown property {other}");
             std::process::exit(2);
